@@ -51,12 +51,23 @@ class DbDotDot:
             shutil.rmtree(root, ignore_errors=True)
 
 
+import native.C09 as _C09      # noqa: E402
+
+
+def _spellings():
+    t = _C09.Membership()
+    t.no_patterns = True
+    return t
+
+
 TARGETS = {
     "codebasin.finder:ParserState._get_realpath": SysTarget("aliases", ("links", "aliases", "multi", "forced"), quick_n=200, thorough_n=3000),
     "codebasin.finder:ParserState.get_setmap": C06.Reports("reports", ("links", "aliases", "exclude", "outside"), quick_n=150, thorough_n=2000),
     "codebasin.report:FileTree.insert": C06.TreeReport("tree", ("links", "aliases", "exclude", "multi"), quick_n=150, thorough_n=2000),
     "codebasin.coverage.__main__:_compute": C06.Coverage("coverage", ("links",), quick_n=6, thorough_n=100),
     "codebasin.config:load_database": DbDotDot(),
+    # membership and enumeration through every spelling (links to files, to directories, to the code-base directory itself)
+    "codebasin:CodeBase.__contains__": _spellings(),
 }
 TARGETS["codebasin.finder:ParserState.get_setmap"].proved = True
 
